@@ -165,10 +165,12 @@ func (t *Term) SInt() *big.Int {
 // case facts: literals known true/false in the current case of a split (execution-level case analysis)
 var knownTrue = map[int]bool{}
 var knownFalse = map[int]bool{}
+var knownVal = map[int]*Term{}
 
 func clearFacts() {
 	knownTrue = map[int]bool{}
 	knownFalse = map[int]bool{}
+	knownVal = map[int]*Term{}
 	selectCache = map[[2]int]*Term{}
 }
 
@@ -188,6 +190,13 @@ func setFact(t *Term) {
 		return
 	}
 	knownTrue[t.id] = true
+	if t.Op == "=" {
+		if t.Args[1].Op == "const" && t.Args[0].Op != "const" {
+			knownVal[t.Args[0].id] = t.Args[1]
+		} else if t.Args[0].Op == "const" && t.Args[1].Op != "const" {
+			knownVal[t.Args[1].id] = t.Args[0]
+		}
+	}
 }
 
 func factOf(t *Term) int {
@@ -567,6 +576,14 @@ func blkDistinct(a, b *Term) bool {
 func Eq(a, b *Term) *Term {
 	if a == b {
 		return True()
+	}
+	if len(knownVal) > 0 {
+		if v, ok := knownVal[a.id]; ok && b.Op == "const" {
+			return BoolC(v.Val.Cmp(b.Val) == 0)
+		}
+		if v, ok := knownVal[b.id]; ok && a.Op == "const" {
+			return BoolC(v.Val.Cmp(a.Val) == 0)
+		}
 	}
 	if a.S != b.S {
 		panic(fmt.Sprintf("eq sort mismatch %s vs %s (%s / %s)", a.S, b.S, a, b))
